@@ -566,7 +566,9 @@ def render(doc, style='flow'):
     pre = (tag + ' ') if tag else ''
     if k == 's':
         text = doc[1]
-        if doc[2] or not PLAIN_SAFE.match(text) or text.endswith(':') or ': ' in text:
+        if text == '<<' and not doc[2]:
+            body = text          # a merge key
+        elif doc[2] or not PLAIN_SAFE.match(text) or text.endswith(':') or ': ' in text:
             body = '"' + text.replace('\\', '\\\\').replace('"', '\\"').replace('\n', '\\n') + '"'
         else:
             body = text
